@@ -95,7 +95,22 @@ def check(F, rep):
         fr = {fld for owner, fld in mdu.field_reads(op_base(t["args"][1])) if owner == RL}
         for k in kinds:
             pairs[k] = fr
-    rep.ob("table_agreement", pairs == {k: {v} for k, v in WANT.items()}, site(mg), "merge: each map of `other` is merged with its own probe kind: %s" % {k: sorted(v) for k, v in pairs.items()}, RL + "::merge|table")
+    # alternative idiom: `for (probe, url, latency) in other.iter() { self.update_relay(url, latency, probe) }`
+    # - every record keeps the kind that RelayLatencies::iter labelled it with (iter's own table is decided below)
+    urs = find_calls(mg, RL + "::update_relay")
+    via_iter = bool(urs) and not pairs and all(
+        all(mdu.derives_from_call(op_base(t["args"][k]), RL + "::iter") for k in (1, 2, 3) if op_base(t["args"][k]) is not None)
+        and all(x[0] == "call" and x[1].endswith("Iterator::next") for x in copy_sources(mg, op_base(t["args"][3])))
+        for b, t in urs) and all(copy_sources(mg, op_base(t["args"][0])) == {("arg", 2, ())} or arg_ref_target(mg, t["args"][0]) == 2 for b, t in find_calls(mg, RL + "::iter"))
+    # any other helper that is handed one map of self and one map of other: name the pairing in the report
+    direct = {}
+    for b, t in mg.calls():
+        if t["k"] == "call" and not call_matches(t, re.escape(RL) + r"::(update_relay|iter)$") and len(t["args"]) >= 2:
+            flds = [[e[2] for e in (ref_source_place(mg, op_base(a)) or {}).get("p", []) if e[0] == "f"] if op_base(a) is not None else [] for a in t["args"][:2]]
+            if all(len(x) == 1 and x[0] in WANT.values() for x in flds):
+                direct[flds[0][0]] = flds[1][0]
+    mism = {k: v for k, v in direct.items() if k != v}
+    rep.ob("table_agreement", via_iter or pairs == {k: {v} for k, v in WANT.items()}, site(mg), "merge: each map of `other` is merged with its own probe kind: %s" % ("every record of other.iter() is merged with the kind iter() labelled it with" if via_iter else ({k: sorted(v) for k, v in pairs.items()} if pairs or not direct else "maps handed to a helper as (self.%s) <- (other.%s)%s; merging without update_relay is not a recognised idiom (fails closed)" % ("/".join(sorted(direct)), "/".join(direct[k] for k in sorted(direct)), " - MISMATCHED: %s" % mism if mism else ""))), RL + "::merge|table")
     its = F.fns_named(RL + "::iter")
     if len(its) == 1:
         it = rep.fn(its[0])
